@@ -62,8 +62,15 @@ def seeded_table():
     rows = ["| id | property | change | needs | caught by | how |", "|---|---|---|---|---|---|"]
     for m in sorted(glob.glob(os.path.join(VERIF, "seeded", "*", "meta.json"))):
         j = json.load(open(m))
+        caught = ", ".join(j.get("caught_by", [])) or "**missed**"
+        how = " ".join(str(j.get("how_caught", "")).replace("|", "/").split())[:220]
+        if j.get("retired"):
+            caught = (caught if caught != "**missed**" else "") + " (retired)"
+            how = "RETIRED: " + " ".join(str(j["retired"]).split())[:300]
+        elif j.get("ported_by_lead"):
+            how += " [patch " + " ".join(str(j["ported_by_lead"]).split())[:160] + "]"
         rows.append("| %s | %s | %s | %s | %s | %s |" % (os.path.basename(os.path.dirname(m)), j.get("property", ""), str(j.get("title", "")).replace("|", "/"),
-                                                    " ".join(str(j.get("needs", "")).replace("|", "/").split())[:160], ", ".join(j.get("caught_by", [])) or "**missed**", " ".join(str(j.get("how_caught", "")).replace("|", "/").split())[:220]))
+                                                    " ".join(str(j.get("needs", "")).replace("|", "/").split())[:160], caught, how))
     return "\n".join(rows) if len(rows) > 2 else "(seeded changes are being collected)"
 
 
